@@ -275,6 +275,11 @@ func (ck *Check) Main(args []string) {
 		ck.ChildMain(args)
 		os.Exit(0)
 	}
+	if len(args) >= 3 && args[0] == "rerun" {
+		// rerun <batch> <run> [tier]: any run of any batch is a pure function of
+		// VERIF_SEED, so it can be repeated on its own (timed, with explanation)
+		os.Exit(ck.rerun(args[1:]))
+	}
 	if len(args) >= 1 && args[0] == "selftest-replay" {
 		os.Exit(ck.selftestReplay())
 	}
@@ -868,4 +873,51 @@ func (ck *Check) selftestReplay() int {
 		return 2
 	}
 	return 0
+}
+
+func (ck *Check) rerun(args []string) int {
+	run, err := strconv.Atoi(args[1])
+	if err != nil {
+		fmt.Fprintln(os.Stderr, err)
+		return 2
+	}
+	tier := "quick"
+	if len(args) > 2 {
+		tier = args[2]
+	}
+	seed := uint64(1)
+	if s := os.Getenv("VERIF_SEED"); s != "" {
+		if v, err := strconv.ParseUint(s, 10, 64); err == nil {
+			seed = v
+		} else {
+			seed = Mix(0, s, 0)
+		}
+	}
+	for _, b := range ck.Batches {
+		if b.Name != args[0] {
+			continue
+		}
+		t := NewTape(Mix(seed, ck.Prop+"/"+b.Name, uint64(run)))
+		st := NewStats()
+		t0 := time.Now()
+		out := safeRun(b, &RunCtx{T: t, Index: run, Tier: tier, St: st, Explain: true})
+		fmt.Printf("rerun %s/%s run %d seed %d: %d draws, %.2fs\n", ck.Prop, b.Name, run, seed, len(t.Rec), time.Since(t0).Seconds())
+		var names []string
+		for k := range st.Counters {
+			names = append(names, k)
+		}
+		sort.Strings(names)
+		for _, k := range names {
+			fmt.Printf("  %s=%d\n", k, st.Counters[k])
+		}
+		if out == nil {
+			fmt.Println("property held (no violation)")
+			return 0
+		}
+		js, _ := json.MarshalIndent(out, "", " ")
+		fmt.Printf("%s\n", js)
+		return 1
+	}
+	fmt.Fprintln(os.Stderr, "unknown batch", args[0])
+	return 2
 }
